@@ -48,18 +48,19 @@ def skipSpaces : Bytes → Bytes
   | [] => []
   | c :: r => if isSpace c then skipSpaces r else c :: r
 
-/-- `atoi(s)`: white space, optional sign, decimal digits (0 when there are none).
-    `none` when the value does not fit an `int` (undefined behaviour in C). -/
-def atoi (s : Bytes) : Option Int :=
-  let s := skipSpaces s
-  let (neg, s) : Bool × Bytes :=
-    match s with
-    | 45 :: r => (true, r)
-    | 43 :: r => (false, r)
-    | _ => (false, s)
-  let n : Int := (takeDigits s 0).1
-  let v := if neg then -n else n
+/-- digits of `atoi` after white space and sign; `none` when the value does not fit an
+    `int` (undefined behaviour in C). -/
+def atoiBody (neg : Bool) (s : Bytes) : Option Int :=
+  let n : Int := ((takeDigits s 0).1 : Nat)
+  let v : Int := if neg then -n else n
   if IntTy.i32.min ≤ v ∧ v ≤ IntTy.i32.max then some v else none
+
+/-- `atoi(s)`: white space, optional sign, decimal digits (0 when there are none). -/
+def atoi (s : Bytes) : Option Int :=
+  match skipSpaces s with
+  | 45 :: r => atoiBody true r
+  | 43 :: r => atoiBody false r
+  | r => atoiBody false r
 
 /-! ### comparison structures and rLIMIT -/
 
